@@ -32,6 +32,7 @@ def concretise(a, rnd):
         msg = rnd.choice(["Server error", "", "boom é"])
         data = rnd.choice([{"why": [1, 2]}, "details", 0, False, [], ""]) if a["p"] == "fault" else None
         fault = jsonrpc.Fault(code, msg, data=data)
+        fault.verif_inputs = (code, msg, data)        # what the caller built it with (not what the object remembers)
         p = fault
     rid = {"none": None, "empty": "", "str": rnd.choice(["abc", "0", "id-é", " "]), "zero": 0, "zerof": 0.0,
            "int": rnd.choice([5, 2 ** 53]), "neg": rnd.choice([-1, -99]), "frac": rnd.choice([1.5, -0.25])}[a["id"]]
@@ -60,6 +61,22 @@ def run_case(a, judged, rnd):
         return json.loads(t)
     s = call(ds)
     rt = call(lambda: jsonrpc.loads(texts[0], cfg)) if texts else {"kind": "none", "msg": None}
+    # a dictionary with keys of several types somewhere in the parameters / result / fault data: the message is still
+    # emitted (the JSON text has string keys, so only "does not raise" is asked here)
+    mixed = "na"
+    if s["kind"] == "ok":
+        mk = {"name": "x", 2: "two", None: 0}
+        if fault is not None:
+            p2 = jsonrpc.Fault(fault.verif_inputs[0], fault.verif_inputs[1], data={"why": mk})
+        elif isinstance(p, dict):
+            p2 = dict(p, nested=mk)
+        elif isinstance(p, (list, tuple)) and len(p) > 0:
+            p2 = list(p) + [mk]
+        else:
+            p2 = None
+        if p2 is not None:
+            mx = call(lambda: json.loads(jsonrpc.dumps(p2, m, methodresponse=resp, rpcid=rid, version=v, notify=notify, config=cfg)))
+            mixed = "ok" if mx["kind"] == "ok" else "raised:" + mx["kind"]
     fresh = []
     if d["kind"] == "ok" and isinstance(d["msg"], dict):
         for _ in range(3):
@@ -75,9 +92,10 @@ def run_case(a, judged, rnd):
         le = "raised:" + type(e).__name__
     rec = {"a": a, "judged": judged,
            "in": {"method": enc(m), "params": enc(None if fault else p), "rpcid": enc(rid),
-                  "fcode": enc(fault.faultCode if fault else None), "fmsg": enc(fault.faultString if fault else None),
-                  "fdata": enc(fault.data if fault else None)},
+                  "fcode": enc(fault.verif_inputs[0] if fault else None), "fmsg": enc(fault.verif_inputs[1] if fault else None),
+                  "fdata": enc(fault.verif_inputs[2] if fault else None)},
            "dump": {"kind": d["kind"], "msg": enc(d["msg"])}, "dumps": {"kind": s["kind"], "msg": enc(s["msg"])},
+           "mixed": mixed,
            "rt": {"kind": rt["kind"], "msg": enc(rt["msg"])},
            "fresh": fresh if a["id"] in ("none", "empty") else [], "loadsempty": le,
            "repr": "dump(%r, %r, rpcid=%r, version=%r, is_response=%r, is_notify=%r, config.version=%r)" % (
@@ -109,11 +127,11 @@ def run_case_interleaved(a, a2, rnd, limit):
         both_fresh = a["id"] in ("none", "empty") and b_generated
         recs.append({"a": a, "judged": True,
                      "in": {"method": enc(m), "params": enc(None if fault else p), "rpcid": enc(rid),
-                            "fcode": enc(fault.faultCode if fault else None), "fmsg": enc(fault.faultString if fault else None),
-                            "fdata": enc(fault.data if fault else None)},
+                            "fcode": enc(fault.verif_inputs[0] if fault else None), "fmsg": enc(fault.verif_inputs[1] if fault else None),
+                            "fdata": enc(fault.verif_inputs[2] if fault else None)},
                      "dump": {"kind": d["kind"], "msg": enc(d["msg"])}, "dumps": {"kind": d["kind"], "msg": enc(d["msg"])},
                      "rt": {"kind": "none", "msg": enc(None)},
-                     "fresh": fresh if both_fresh else (fresh[:1] if a["id"] in ("none", "empty") else []), "loadsempty": "none",
+                     "fresh": fresh if both_fresh else (fresh[:1] if a["id"] in ("none", "empty") else []), "loadsempty": "none", "mixed": "na",
                      "repr": "dump(%r, %r, rpcid=%r, version=%r, is_response=%r, is_notify=%r, config.version=%r) with a concurrent dump(rpcid=%r, version=%r) at line event %d" % (
                          "Fault" if fault else p, m, rid, v, resp, notify, cfg.version, rid2, v2, k)})
     return recs
